@@ -17,6 +17,7 @@ macro_rules! harnesses {
 }
 
 pub mod c01;
+pub mod core_specs;
 pub mod canary;
 pub mod c15;
 pub mod c02;
@@ -39,6 +40,7 @@ pub mod c20;
 pub fn registry() -> Vec<(&'static str, fn())> {
     let mut v = Vec::new();
     v.extend_from_slice(c01::LIST);
+    v.extend_from_slice(core_specs::LIST);
     v.extend_from_slice(canary::LIST);
     v.extend_from_slice(c15::LIST);
     v.extend_from_slice(c02::LIST);
